@@ -8,29 +8,32 @@ import (
 
 // target is one Go function that is regenerated as a Lean definition.
 type target struct {
-	Dir            string            // package directory relative to the repo root
-	Recv           string            // receiver type name, "" for a plain function
-	Name           string            // function name
-	Lean           string            // name of the Lean definition (namespace Ucan.Gen)
-	Fuel           []string          // fuel (a Lean Nat expression over the parameters) for each non-range loop, in source order
-	Uses           []string          // section variables the definition mentions, passed explicitly by callers
-	Nilable        []string          // slice parameters that the function compares with nil: modelled as Option
-	File           string            // generated file (Ucan/Gen/<File>.lean)
-	StructAs       map[string]string // Go struct type -> the structTable entry it stands for in this target
-	InlineClosures bool              // local closures without results are inlined at their call statements (closures.go)
-	StructLocal    string            // a local of a modelled struct type that is replaced by one local per field (structlocal.go)
-	Concrete       []string          // Go types this target sees as their modelled struct (not as the opaque parameter of typeTable)
-	Shell          bool              // every method the function calls on its receiver is a parameter (shellMethods): the definition
+	Dir             string            // package directory relative to the repo root
+	Recv            string            // receiver type name, "" for a plain function
+	Name            string            // function name
+	Lean            string            // name of the Lean definition (namespace Ucan.Gen)
+	Fuel            []string          // fuel (a Lean Nat expression over the parameters) for each non-range loop, in source order
+	Uses            []string          // section variables the definition mentions, passed explicitly by callers
+	Nilable         []string          // slice parameters that the function compares with nil: modelled as Option
+	File            string            // generated file (Ucan/Gen/<File>.lean)
+	StructAs        map[string]string // Go struct type -> the structTable entry it stands for in this target
+	MapIterators    bool              // `it := X.MapIterator(); for !it.Done() {… it.Next() …}` becomes a range loop (iterators.go)
+	StructLocalZero bool              // the struct local's fields get zero-valued locals up front (fields first assigned in a loop)
+	InlineClosures  bool              // local closures without results are inlined at their call statements (closures.go)
+	StructLocal     string            // a local of a modelled struct type that is replaced by one local per field (structlocal.go)
+	Concrete        []string          // Go types this target sees as their modelled struct (not as the opaque parameter of typeTable)
+	Shell           bool              // every method the function calls on its receiver is a parameter (shellMethods): the definition
 	// depends on the body of this one function only. A shell target is never a callee; list it after the full one.
 }
 
 // genFile is one generated Lean file; the split keeps a change to one Go function from breaking the
 // obligations of unrelated properties.
 type genFile struct {
-	Name    string
-	Imports []string
-	Structs []string // keys of structTable whose Lean structures this file declares
-	Prelude string   // extra section variables of this file
+	Name         string
+	Imports      []string
+	ModelImports []string // Ucan.Model.* modules the generated file needs
+	Structs      []string // keys of structTable whose Lean structures this file declares
+	Prelude      string   // extra section variables of this file
 }
 
 var genFiles = []genFile{
@@ -42,6 +45,7 @@ var genFiles = []genFile{
 	{Name: "ParseTime", Imports: []string{"Facts"}},
 	{Name: "ChainTypes", Structs: []string{"delegation.Token", "invocation.Token"}},
 	{Name: "Did", Structs: []string{"did.DID"}, Prelude: didPrelude},
+	{Name: "Envelope", ModelImports: []string{"NodeApi"}, Structs: []string{"envelope.Info"}},
 	{Name: "DecodeTypes", Structs: []string{"delegation.Token#dec", "delegation.tokenPayloadModel", "invocation.Token#dec", "invocation.tokenPayloadModel"}},
 	{Name: "Decode", Imports: []string{"DecodeTypes", "Command", "ParseTime"}, Prelude: decodePrelude},
 	{Name: "ChainTime", Imports: []string{"ChainTypes"}, Prelude: "variable (now : Int)\n"},
@@ -80,6 +84,9 @@ var targets = []target{
 		Uses: []string{"ext_open"}},
 	{Dir: "did", Name: "Parse", Lean: "did_Parse", File: "Did", Uses: []string{"ext_mbDecode", "ext_fromUvarint"}, Concrete: []string{"did.DID"}},
 	{Dir: "token/internal/parse", Name: "OptionalTimestamp", Lean: "OptionalTimestamp", File: "ParseTime"},
+	{Dir: "token/internal/envelope", Name: "FindTag", Lean: "FindTag", File: "Envelope", MapIterators: true, Concrete: []string{"datamodel.Node"}},
+	{Dir: "token/internal/envelope", Name: "Inspect", Lean: "Inspect", File: "Envelope", StructLocal: "res", StructLocalZero: true, MapIterators: true,
+		Concrete: []string{"datamodel.Node"}},
 	{Dir: "token/delegation", Recv: "Token", Name: "validate", Lean: "Dlg_validate", File: "Decode", InlineClosures: true,
 		StructAs: map[string]string{"delegation.Token": "delegation.Token#dec"}, Uses: []string{"lower", "ext_defined"}},
 	{Dir: "token/invocation", Recv: "Token", Name: "validate", Lean: "Inv_validate", File: "Decode", InlineClosures: true,
@@ -168,6 +175,7 @@ type structDef struct {
 	leanType string // applied to its type parameters
 	params   string // binder text
 	want     []string
+	concrete []string      // Go types the struct's fields see concretely (see target.Concrete)
 	fields   map[string]ty // filled by emitStructs
 }
 
@@ -186,6 +194,8 @@ var structTable = map[string]*structDef{
 		want: []string{"issuer", "subject", "audience", "command", "arguments", "proof", "meta", "nonce", "expiration", "invokedAt", "cause"}},
 	"invocation.tokenPayloadModel": {dir: "token/invocation", name: "tokenPayloadModel", lean: "InvModel", leanType: "(InvModel C A M)", params: "(C A M : Type)",
 		want: []string{"Iss", "Sub", "Aud", "Cmd", "Args", "Prf", "Meta", "Nonce", "Exp", "Iat", "Cause"}},
+	"envelope.Info": {dir: "token/internal/envelope", name: "Info", lean: "EnvInfo", leanType: "EnvInfo", params: "",
+		want: []string{"Tag", "Signature", "VarsigHeader", "sigPayloadNode", "tokenPayloadNode"}, concrete: []string{"datamodel.Node"}},
 	// the DID value as package did itself sees it (every other package sees the opaque, comparable D)
 	"did.DID": {dir: "did", name: "DID", lean: "DidVal", leanType: "DidVal", params: "", want: []string{"code", "bytes"}},
 }
@@ -194,6 +204,9 @@ func emitStructs(b *strings.Builder, keys []string) error {
 	concreteTypes = map[string]bool{}
 	for _, key := range keys {
 		concreteTypes[key] = true
+		for _, c := range structTable[key].concrete {
+			concreteTypes[c] = true
+		}
 	}
 	defer func() { concreteTypes = map[string]bool{} }()
 	for _, key := range keys {
@@ -243,8 +256,13 @@ type libCall struct {
 	uses []string
 }
 
+// concreteTable: what a Go type is for a target that lists it under Concrete (instead of the opaque parameter of typeTable)
+var concreteTable = map[string]string{
+	"datamodel.Node": "Node", // the model's IPLD node (Model/Node.lean) with the node API of Model/NodeApi.lean
+}
+
 // impureLibCalls: library functions that can fail — their translation is a GoM computation
-var impureLibCalls = map[string]bool{"mbase.Decode": true, "varint.FromUvarint": true, "did.Parse": true, "parse.OptionalDID": true,
+var impureLibCalls = map[string]bool{"lookupByIndex__": true, "mbase.Decode": true, "varint.FromUvarint": true, "did.Parse": true, "parse.OptionalDID": true,
 	"command.Parse": true, "command.IsValid": true, "policy.FromIPLD": true, "parse.OptionalTimestamp": true}
 
 // libCalls: standard-library functions with their model. `lower` (strings.ToLower) stays a parameter.
@@ -268,11 +286,17 @@ var libCalls = map[string]libCall{
 	"policy.FromIPLD":         {"(ext_policyFromIPLD $1)", ty{"(List (Option S))", "policy.Policy"}, []string{"ext_policyFromIPLD"}},
 	"parse.OptionalTimestamp": {"(OptionalTimestamp $1)", ty{"(Option Int)", "*time.Time"}, nil},
 	"meta.NewMeta":            {"(some ext_newMeta)", ty{"(Option M)", "*meta.Meta"}, []string{"ext_newMeta"}},
-	"strings.Split":           {"(splitOn $1 $2)", ty{"(List Bytes)", "[]string"}, nil}, // a non-empty separator (the callers pass a constant)
+	// pseudo-functions the map-iterator rewrite produces
+	"mapEntries__":  {"(mapEntries $1)", ty{"(List (Node × Node))", "[]nodepair"}, nil},
+	"pairFst__":     {"($1).1", ty{"Node", "datamodel.Node"}, nil},
+	"pairSnd__":     {"($1).2", ty{"Node", "datamodel.Node"}, nil},
+	"strings.Split": {"(splitOn $1 $2)", ty{"(List Bytes)", "[]string"}, nil}, // a non-empty separator (the callers pass a constant)
 }
 
 // methodCalls: library methods, keyed by "GoType.Method".
 var methodCalls = map[string]libCall{
+	"datamodel.Node.Kind":    {"(Node.kind $r)", ty{"Kind", "datamodel.Kind"}, nil},
+	"datamodel.Node.Length":  {"(nodeLength $r)", intTy, nil},
 	"did.DID.Defined":        {"(ext_defined $r)", boolTy, []string{"ext_defined"}},
 	"time.Time.After":        {"(decide ($r > $1))", boolTy, nil},
 	"time.Time.Before":       {"(decide ($r < $1))", boolTy, nil},
@@ -285,6 +309,9 @@ var methodCalls = map[string]libCall{
 var externMethods = map[string]libCall{
 	"invocation.Token.loadProofs":     {"(ext_loadProofs $r $1)", ty{"(List (DlgTok D S))", "[]delegation.Token"}, []string{"ext_loadProofs"}},
 	"delegation.Loader.GetDelegation": {"(ext_GetDelegation $r $1)", ty{"(DlgTok D S)", "*delegation.Token"}, []string{"ext_GetDelegation"}},
+	"datamodel.Node.LookupByIndex":    {"(lookupByIndex $r $1)", ty{"Node", "datamodel.Node"}, nil},
+	"datamodel.Node.AsBytes":          {"(asBytes $r)", ty{"Bytes", "[]byte"}, nil},
+	"datamodel.Node.AsString":         {"(asString $r)", ty{"Bytes", "string"}, nil},
 	"*time.Time.Unix":                 {"(deref $r)", ty{"Int", "int64"}, nil},
 	"*args.Args.ReadOnly":             {"(ext_ReadOnly $r)", ty{"R", "args.ReadOnly"}, []string{"ext_ReadOnly"}},
 	"*args.Args.Validate":             {"(ext_argsValidate $r)", ty{"Unit", "unit"}, []string{"ext_argsValidate"}},
@@ -394,6 +421,8 @@ var constTable = map[string]constDef{
 	"multicodec.P384Pub":      {"(4609 : Int)", intTy},
 	"multicodec.P521Pub":      {"(4610 : Int)", intTy},
 	"multicodec.RsaPub":       {"(4613 : Int)", intTy},
+	"datamodel.Kind_List":     {"Kind.list", ty{"Kind", "datamodel.Kind"}},
+	"datamodel.Kind_Map":      {"Kind.map", ty{"Kind", "datamodel.Kind"}},
 	"math.MinInt":             {"(-9223372036854775808 : Int)", intTy},
 	"limits.MaxInt53":         {"Ucan.Facts.maxInt53", intTy}, // the regenerated constants (Gen/Facts.lean)
 	"limits.MinInt53":         {"Ucan.Facts.minInt53", intTy},
